@@ -1136,8 +1136,25 @@ def main(tier, seed, replay=None):
         mt = run_scenarios(sub, mutant=name)
         mtraces += mt
         owner += [name] * len(mt)
+    # positive control: with the minimal repairs applied in memory, the scenarios the as-is tree fails (and the sample
+    # above) must be accepted by the monitor and explained by the repaired design spec
+    ctl = []
+    if as_is:
+        rej = sorted(i for i in badset if i >= len(sim_scs))
+        ctl = [dict(all_scs[i], bugs=[]) for i in rej[::max(1, len(rej) // (300 if tier == 'quick' else 1500))]] + \
+              [dict(sc, bugs=[]) for sc in sub[::2]]
+        mtraces += run_scenarios(ctl, mutant='_repair')
+        owner += ['_repair'] * len(ctl)
+    # binding self-test: corrupted copies of one accepted trace
+    gi = next(i for i in good if all_scs[i]['fam'] == 'store' and any(e['e'] == 'persist' for c in all_traces[i]['chunks'] for e in c['ev']))
+    corruptions = ('drop-mw', 'flip-cb', 'drop-persist')
+    for what in corruptions:
+        t0 = copy.deepcopy(all_traces[gi])
+        _corrupt(t0, what)
+        mtraces.append(t0)
+        owner.append('corrupt:' + what)
     o2 = common.Outcome('X01', tier, seed)
-    mbad, _ = judge(o2, mtraces, 'mutants', count=False)        # one TLC batch run for all mutants
+    mbad, mdrift = judge(o2, mtraces, 'sensitivity', count=False)        # one TLC batch run for all of them
     for name in names:
         clauses = {}
         for (i, c, _a) in mbad:
@@ -1147,28 +1164,20 @@ def main(tier, seed, replay=None):
         out.sensitivity['mutant:' + name] = '%d of %d traces rejected %s' % (n, len(sub), dict(sorted(clauses.items())))
         if not n:
             raise common.MachineryError('monitor did not reject in-memory mutant %s' % name)
-    # positive control: with the minimal repairs applied in memory, the scenarios the as-is tree fails (and the sample
-    # above) are accepted by the monitor and explained by the repaired design spec
-    if as_is:
-        rej = sorted(i for i in badset if i >= len(sim_scs))
-        ctl = [dict(all_scs[i], bugs=[]) for i in rej[::max(1, len(rej) // (300 if tier == 'quick' else 1500))]] + \
-              [dict(sc, bugs=[]) for sc in sub[::2]]
-        ct = run_scenarios(ctl, mutant='_repair')
-        o2 = common.Outcome('X01', tier, seed)
-        cbad, cdrift = judge(o2, ct, 'repair control', count=False)
+    if ctl:
+        cbad = [(i, c, a) for (i, c, a) in mbad if owner[i] == '_repair']
+        cdrift = [i for (i, _a) in mdrift if owner[i] == '_repair']
         out.sensitivity['control:in-memory repair'] = '%d of %d traces rejected, %d not explained by the repaired design spec' % (
-            len(cbad), len(ct), len(cdrift))
+            len(cbad), len(ctl), len(cdrift))
         if cbad:
             i, clause, at = cbad[0]
-            raise common.MachineryError('monitor rejects the repaired code: %s at %d in %r' % (clause, at, ctl[i]['steps']))
-    gi = next(i for i in good if all_scs[i]['fam'] == 'store' and any(e['e'] == 'persist' for c in all_traces[i]['chunks'] for e in c['ev']))
-    for what in ('drop-mw', 'flip-cb', 'drop-persist'):
-        t0 = copy.deepcopy(all_traces[gi])
-        _corrupt(t0, what)
-        o2 = common.Outcome('X01', tier, seed)
-        cbad, cdrift = judge(o2, [t0], 'corrupted', count=False)
-        out.sensitivity['binding:' + what] = ('monitor: %s' % cbad[0][1]) if cbad else ('conformance only' if cdrift else 'ACCEPTED')
-        if not (cbad or cdrift):
+            raise common.MachineryError('monitor rejects the repaired code: %s at event %d of %r' % (
+                clause, at, [_short(e) for c in mtraces[i]['chunks'] for e in c['ev']][:at]))
+    for what in corruptions:
+        cb = [c for (i, c, _a) in mbad if owner[i] == 'corrupt:' + what]
+        cd = [i for (i, _a) in mdrift if owner[i] == 'corrupt:' + what]
+        out.sensitivity['binding:' + what] = ('monitor: %s' % cb[0]) if cb else ('conformance only' if cd else 'ACCEPTED')
+        if not (cb or cd):
             raise common.MachineryError('trace spec accepted a corrupted trace (%s)' % what)
     return out.finish()
 
